@@ -199,6 +199,9 @@ def install():
     L.BaseLoader.createResource = tracked_create
 
 
+DATA_INCLUDES = ["%include data:text/plain;charset=x-no-such-charset,top%20zcv-data%0A",
+                 "%include data:image/png,top%20zcv-png%0A", "%include data:,top%20zcv-bare%0A",
+                 "%include data:text/plain;charset=utf-16,top%20zcv-u16%0A", "%include data:application/octet-stream;base64,dG9wIHpjdi1iNjQK"]
 BAD_LINES = ["<x y z>", "%nosuchdirective x", "top ${unclosed", "<nosuchtype>"]
 
 
@@ -314,6 +317,9 @@ def gen_scenario(rng, idx):
             lines.insert(k, "%define zcvdef dv")
             if rng.random() < 0.5:
                 lines.insert(rng.randrange(k + 1, len(lines) + 1), "top $zcvdef")
+        if rng.random() < 0.2:
+            # a resource that is not a file: its answer announces a media type and a character set
+            lines.insert(rng.randrange(len(lines) + 1), rng.choice(DATA_INCLUDES))
         text = "".join(l + "\n" for l in lines)
         main = "file:///zcv/a/b/c/main.conf"
         resources, cuts = gen.cut_includes(rng, text, main, ncuts=rng.choice([0, 1, 2, 3]))
